@@ -26,79 +26,31 @@
    (lazy loading of directory entries, DataIndexDirError -> UNKNOWN), SQLite backed tries,
    `entry.key` different from the key the entry is stored under. *)
 From Coq Require Import NArith List Bool.
-From DvcData Require Import Base.Val.
+From DvcData Require Import Base.Val Base.PyBase Gen.PyTypes.
 Import ListNotations.
 Open Scope N_scope.
 
 Definition name := list N.            (* one path component, code points *)
-Definition key := list name.          (* DataIndexKey = tuple[str, ...] *)
-
-(* hashfile/meta.py: the eq=True attrs fields of Meta, in declaration order
-   (remote, is_link, destination, nlink are eq=False and do not take part in ==) *)
-Record meta := {
-  m_isdir : bool;
-  m_size : option N;
-  m_nfiles : option N;
-  m_isexec : bool;
-  m_version_id : option (list N);
-  m_etag : option (list N);
-  m_checksum : option (list N);
-  m_md5 : option (list N);
-  m_inode : option N;
-  m_mtime : option N }.
+(* DataIndexKey = tuple[str, ...] is [key] of Base/PyBase.v.  The records [meta], [hashinfo],
+   [ientry] and their attrs equalities ([meta_eqb] and [hashinfo_eqb] compare the eq=True fields
+   only) are the GENERATED ones of Gen/PyTypes.v, so that the generated deciders of Gen/IDiff.v
+   apply to the entries of this model directly.  [e_key] of an entry is not read by the model:
+   an entry is identified by the key it is stored under (ASSUMPTIONS of harness/props/c08.py). *)
 
 Definition meta0 : meta :=            (* Meta() *)
-  {| m_isdir := false; m_size := None; m_nfiles := None; m_isexec := false; m_version_id := None;
-     m_etag := None; m_checksum := None; m_md5 := None; m_inode := None; m_mtime := None |}.
-
-(* hashfile/hash_info.py: eq over (name, value); obj_name is eq=False *)
-Record hashinfo := { h_name : option (list N); h_value : option (list N) }.
-
-Record ientry := { e_meta : option meta; e_hash : option hashinfo; e_loaded : option bool }.
-
-Definition index := list (key * ientry).
-
-(* ---- equality tests (== of attrs classes) -------------------------------------------- *)
-Definition opt_eqb {A} (eqb : A -> A -> bool) (a b : option A) : bool :=
-  match a, b with
-  | None, None => true
-  | Some x, Some y => eqb x y
-  | _, _ => false
-  end.
-
-Definition meta_eqb (a b : meta) : bool :=
-  Bool.eqb (m_isdir a) (m_isdir b) && opt_eqb N.eqb (m_size a) (m_size b) &&
-  opt_eqb N.eqb (m_nfiles a) (m_nfiles b) && Bool.eqb (m_isexec a) (m_isexec b) &&
-  opt_eqb list_N_eqb (m_version_id a) (m_version_id b) && opt_eqb list_N_eqb (m_etag a) (m_etag b) &&
-  opt_eqb list_N_eqb (m_checksum a) (m_checksum b) && opt_eqb list_N_eqb (m_md5 a) (m_md5 b) &&
-  opt_eqb N.eqb (m_inode a) (m_inode b) && opt_eqb N.eqb (m_mtime a) (m_mtime b).
-
-Definition hashinfo_eqb (a b : hashinfo) : bool :=
-  opt_eqb list_N_eqb (h_name a) (h_name b) && opt_eqb list_N_eqb (h_value a) (h_value b).
-
-Fixpoint key_eqb (a b : key) : bool :=
-  match a, b with
-  | [], [] => true
-  | x :: a', y :: b' => list_N_eqb x y && key_eqb a' b'
-  | _, _ => false
-  end.
+  mk_meta false None None false None None None None None None None false None 1.
 
 (* HashInfo.__bool__ = bool(self.value); `not hi` for hi : Optional[HashInfo] *)
 Definition hi_truthy (h : option hashinfo) : bool :=
   match h with
-  | Some {| h_value := Some (_ :: _) |} => true
-  | _ => false
+  | Some x => match hi_value x with Some v => truthy_list v | None => false end
+  | None => false
   end.
 
-Definition dot_dir : list N := [46; 100; 105; 114].   (* ".dir" *)
-Definition ends_with (s suf : list N) : bool :=
-  Nat.leb (length suf) (length s) && list_N_eqb (skipn (Nat.sub (length s) (length suf)) s) suf.
-(* HashInfo.isdir *)
-Definition hi_isdir (h : hashinfo) : bool :=
-  match h_value h with
-  | Some (c :: v) => ends_with (c :: v) dot_dir
-  | _ => false
-  end.
+(* HashInfo.isdir: the generated property *)
+Definition hi_isdir (h : hashinfo) : bool := HashInfo_isdir h.
+
+Definition index := list (key * ientry).
 
 (* ---- the trie ------------------------------------------------------------------------- *)
 Fixpoint lookup (i : index) (k : key) : option ientry :=
@@ -125,16 +77,16 @@ Definition is_node (i : index) (k : key) : bool :=
 Definition norm_meta (e : ientry) : ientry :=
   match e_meta e with
   | Some _ => e
-  | None => if hi_truthy (e_hash e)
-            then {| e_meta := Some meta0; e_hash := e_hash e; e_loaded := e_loaded e |}
+  | None => if hi_truthy (e_hash_info e)
+            then mk_ientry (e_key e) (Some meta0) (e_hash_info e) (e_loaded e)
             else e
   end.
 
 (* the part of the info dict that diff.py reads: ("type" == "directory", "entry") *)
 Definition info := (bool * option ientry)%type.
 
-Definition entry_isdir (e : ientry) : bool :=
-  match e_meta e with Some m => m_isdir m | None => false end.
+(* `isdir = meta and meta.isdir` after `entry.meta = meta`: the generated DataIndexEntry.isdir *)
+Definition entry_isdir (e : ientry) : bool := DataIndexEntry_isdir e.
 
 Definition info_from_entry (e : option ientry) : info :=
   match e with
